@@ -94,6 +94,7 @@ def generate_case(rng_world, rng_swarm, rng_sched, profile, tier="quick"):
             st["idx"] = gen_idx(rng_sched, profile, dupc)
         if k == "set":
             st["val"] = gen_value(rng_sched)
+            st["route"] = rng_sched.choice(["item", "item", "item", "simple", "raw"])
         if k in ("order_before", "order_after"):
             st["ref"] = gen_key(rng_sched, doc, pi % max(len(doc.paras), 1), 0.1)
             st["ridx"] = gen_idx(rng_sched, profile, dupc)
@@ -111,7 +112,11 @@ def generate_case(rng_world, rng_swarm, rng_sched, profile, tier="quick"):
             again["p"] = rng_sched.randrange(max(npar, 1))
             again["retry"] = True
             steps.append(again)
-    return {"world": {"doc": doc.to_json(), "dup": dup}, "trace": steps}
+    world = {"doc": doc.to_json(), "dup": dup}
+    if len(doc.paras) == 1 and not doc.leading and not doc.trailing and \
+            rng_swarm.random() < 0.35:
+        world["paragraph_only"] = True
+    return {"world": world, "trace": steps}
 
 
 # --------------------------------------------------------------------------- model ops
@@ -153,6 +158,23 @@ def is_dup(para):
 
 # --------------------------------------------------------------------------- execution
 
+class ParagraphOnly(object):
+    """The client kept only the paragraph object of a one-paragraph document; the file
+    object it came from is gone (parent links are weak references)."""
+
+    def __init__(self, para):
+        self.para = para
+
+    def dump(self):
+        return self.para.dump()
+
+    def __iter__(self):
+        return iter([self.para])
+
+    def iter_parts(self):
+        return [self.para]
+
+
 class Run(object):
     def __init__(self, case, profile, out, log):
         self.case = case
@@ -171,6 +193,11 @@ class Run(object):
         if self.file.dump() != text:
             raise Violation("initial-dump-differs", "parse", {"got": self.file.dump(),
                                                               "want": text})
+        if case["world"].get("paragraph_only") and len(self.held) == 1 and \
+                not self.doc.leading and not self.doc.trailing:
+            self.file = ParagraphOnly(self.held[0])
+            gc.collect()
+            out.probe("file_object_dropped_paragraph_kept")
 
     # -- handles
     def handle(self, pi, via):
@@ -187,6 +214,19 @@ class Run(object):
         if via == "view":
             return p.configured_view()
         return p
+
+    def set_call(self, h, pi, k, val, route):
+        """p[k] = v, or the same assignment through the paragraph's set_field_* methods
+        (only for values those methods take as they are)."""
+        if route == "simple" and "\n" not in val and val == val.strip():
+            para = self.handle(pi, "held")
+            self.out.probe("set_through_set_field_methods")
+            return lambda: para.set_field_to_simple_value(k, val)
+        if route == "raw" and "\n" not in val and val == val.strip():
+            para = self.handle(pi, "held")
+            self.out.probe("set_through_set_field_methods")
+            return lambda: para.set_field_from_raw_string(k, " " + val + "\n")
+        return lambda: h.__setitem__(k, val)
 
     # -- whole-document checks
     def check_document(self, si, op, hole=None, exact=True, tolerate_final_newline=False):
@@ -288,6 +328,8 @@ class Run(object):
             out.probe("handles_dropped_and_refetched")
             return True
         if op in ("append", "insert"):
+            if isinstance(self.file, ParagraphOnly):
+                return False
             return self.file_op(si, st)
         if not self.doc.paras:
             return False
@@ -363,7 +405,7 @@ class Run(object):
                 cur.append(self.doc.trailing)
                 prefix, suffix = "".join(pre), "".join(post)
                 hole = (prefix, suffix, want_name, norm_assigned(val), seg, suffix == "")
-                call = lambda: h.__setitem__(k, val)
+                call = self.set_call(h, pi, k, val, st.get("route", "item"))
             elif op == "del":
                 sel = resolve(para, dupc, key, idx, "del")
                 if not before_dump.endswith("\n") and pi == len(self.doc.paras) - 1 and \
@@ -439,7 +481,8 @@ class Run(object):
                 r = ref if ridx is None else (ref, ridx)
             if op in ORDER_OPS and not hasattr(h, op):
                 h = self.handle(pi, "held")
-            call = {"get": lambda: h[k], "set": lambda: h.__setitem__(k, st.get("val")),
+            call = {"get": lambda: h[k],
+                    "set": self.set_call(h, pi, k, st.get("val"), st.get("route", "item")),
                     "del": lambda: h.__delitem__(k),
                     "order_first": lambda: h.order_first(k),
                     "order_last": lambda: h.order_last(k),
